@@ -24,7 +24,7 @@
      us   the units (strings) whose concatenation is the lexeme's text
      sel  the element carries the attribute the selector of the filters looks for
    filter: [act, path, sel, value]   act in append / prepend / replace / text_append /
-          text_prepend / text_replace; sel = "none" | "x" (selector present)               *)
+          text_prepend / text_replace; sel = "none" | "x" (.x) | N (N.x)               *)
 EXTENDS Naturals, Sequences, FiniteSets, TLC, SequencesExt
 
 Void == {"area", "base", "br", "col", "embed", "hr", "img", "input", "link", "meta", "param", "source", "track", "wbr"}
@@ -134,7 +134,10 @@ VEnter(st, data, val) ==
               [st |-> [st EXCEPT !.enter = None, !.leave = nl, !.vbuf = TRUE], sb |-> TRUE, data |-> data]
 
 \* scraper::Html::parse_fragment(data).select(selector): some element of the data carries the attribute
-SelMatch(d, data) == \E x \in 1..Len(data) : data[x][1] > 0 /\ data[x][2] = 1 /\ Lx(d, data[x]).k \in {"stag", "sc"} /\ Lx(d, data[x]).sel
+\* selector "x" is the class selector .x; any other value N is the type + class selector N.x (type selectors are
+\* case-insensitive on HTML elements: lexeme names are the lower-cased names)
+SelHit(f, lx) == lx.sel /\ (f.sel = "x" \/ lx.n = f.sel)
+SelMatch(f, d, data) == \E x \in 1..Len(data) : data[x][1] > 0 /\ data[x][2] = 1 /\ Lx(d, data[x]).k \in {"stag", "sc"} /\ SelHit(f, Lx(d, data[x]))
 
 \* append_child(content, child): re-tokenise the buffered element, insert before the end tag that
 \* brings the nesting level back to 0
@@ -164,21 +167,21 @@ VLeave(d, st, data, val) ==
             LET st1 == IF st.pos > 1 THEN [st EXCEPT !.pos = st.pos - 1, !.enter = ne, !.leave = f.path[st.pos - 1]]
                                      ELSE [st EXCEPT !.enter = ne, !.leave = None]
             IN IF proc THEN IF HasSel(f)
-                            THEN [st |-> st1, data |-> IF ~SelMatch(d, data) THEN AppendChild(d, data, val) ELSE data]
+                            THEN [st |-> st1, data |-> IF ~SelMatch(f, d, data) THEN AppendChild(d, data, val) ELSE data]
                             ELSE [st |-> st1, data |-> <<val>> \o data]
                ELSE [st |-> st1, data |-> data]
        [] f.act = "prepend" ->
             LET st1 == IF st.pos > 1 THEN [st EXCEPT !.pos = st.pos - 1, !.enter = ne, !.leave = f.path[st.pos - 1]]
                                      ELSE [st EXCEPT !.enter = ne, !.leave = None]
             IN IF st.vbuf /\ HasSel(f)
-               THEN [st |-> [st1 EXCEPT !.vbuf = FALSE], data |-> IF ~SelMatch(d, data) THEN PrependChild(d, data, val) ELSE data]
+               THEN [st |-> [st1 EXCEPT !.vbuf = FALSE], data |-> IF ~SelMatch(f, d, data) THEN PrependChild(d, data, val) ELSE data]
                ELSE [st |-> st1, data |-> data]
        [] f.act = "replace" ->
             LET st1 == IF st.pos > 1 /\ ~st.vbuf THEN [st EXCEPT !.pos = st.pos - 1, !.enter = ne, !.leave = f.path[st.pos - 1]]
                                                  ELSE [st EXCEPT !.enter = ne, !.leave = None]
             IN IF st.vbuf
                THEN [st |-> [st1 EXCEPT !.vbuf = FALSE],
-                     data |-> IF ~HasSel(f) \/ SelMatch(d, data) THEN <<val>> ELSE data]
+                     data |-> IF ~HasSel(f) \/ SelMatch(f, d, data) THEN <<val>> ELSE data]
                ELSE [st |-> st1, data |-> data]
 
 OnStart(st, name, data, val) ==
